@@ -102,6 +102,7 @@ type duplex struct {
 	closed [2]bool   // no more bytes will ever arrive at endpoint i
 	raw    [2][]byte // bytes written by endpoint i, not yet framed by the middlebox
 	sent   [2]int    // bytes forwarded from endpoint i so far
+	got    [2][]byte // every byte that was actually delivered to endpoint i's inbox (after all faults)
 	frag   *simkit.Rng
 	maxChk int
 	// middlebox hooks: onFrame gets a whole frame written by endpoint `from` and returns the
@@ -183,6 +184,7 @@ func (d *duplex) forward(from int, b []byte) {
 			keep = 0
 		}
 		d.inbox[to] = append(d.inbox[to], b[:keep]...)
+		d.got[to] = append(d.got[to], b[:keep]...)
 		d.sent[from] += keep
 		// the connection dies: nothing more arrives anywhere
 		d.closed[0], d.closed[1] = true, true
@@ -190,6 +192,7 @@ func (d *duplex) forward(from int, b []byte) {
 		return
 	}
 	d.inbox[to] = append(d.inbox[to], b...)
+	d.got[to] = append(d.got[to], b...)
 	d.sent[from] += len(b)
 }
 
